@@ -145,7 +145,12 @@ type provOpts struct {
 	// throughExternal: besides recording an external call as a root, also look through its arguments
 	// (its result is assumed to be a function of them).
 	throughExternal bool
-	max             int
+	// callThrough: for a call (static or invoke), return the values to continue with instead of making the
+	// call a root (e.g. look through x.Writable() to x).
+	callThrough func(c *ssa.Call) ([]ssa.Value, bool)
+	// bindStop: do not bind this parameter to its callers' actuals (API boundary).
+	bindStop func(p *ssa.Parameter) bool
+	max      int
 }
 
 type provCtx struct {
@@ -204,7 +209,7 @@ func (c *provCtx) visit(v ssa.Value) {
 	case *ssa.Const:
 		c.root(Root{Kind: RConst, Val: x})
 	case *ssa.Parameter:
-		if c.o.bindParams && c.bindParam(x) {
+		if c.o.bindParams && (c.o.bindStop == nil || !c.o.bindStop(x)) && c.bindParam(x) {
 			return
 		}
 		c.root(Root{Kind: RParam, Val: x, Param: x})
@@ -392,6 +397,14 @@ func (c *provCtx) visitCall(tuple ssa.Value, idx int) {
 		return
 	}
 	cc := call.Common()
+	if c.o.callThrough != nil {
+		if vals, ok := c.o.callThrough(call); ok {
+			for _, v := range vals {
+				c.visit(v)
+			}
+			return
+		}
+	}
 	if cc.IsInvoke() {
 		c.root(Root{Kind: RCall, Val: call, Meth: cc.Method, Call: call})
 		if c.o.throughExternal {
